@@ -25,7 +25,7 @@ import (
 
 // c18Seq builds a fresh iterator plus environment for the case. Items are
 // rendered as strings; unordered says that only set membership is promised.
-func c18Seq(c *Case) (mk func() iter.Seq[string], name string, unordered bool, errLast bool, cleanup func()) {
+func c18Seq(c *Case) (mk func() iter.Seq[string], name string, unordered bool, errLast bool, reusable bool, cleanup func()) {
 	cleanup = func() {}
 	switch c.Iter {
 	case "reader":
@@ -38,7 +38,7 @@ func c18Seq(c *Case) (mk func() iter.Seq[string], name string, unordered bool, e
 			st := sim.NewStream(c.Input, plan)
 			seq := f.Reader(st)
 			return func(yield func(string) bool) { seq(func(it fmts.Item) bool { return yield(it.Key()) }) }
-		}, f.Name + ".Reader", false, f.ErrLast, cleanup
+		}, f.Name + ".Reader", false, f.ErrLast, false, cleanup
 	case "file":
 		f := fmts.ByName(c.Format)
 		cfg := *c.File
@@ -47,7 +47,7 @@ func c18Seq(c *Case) (mk func() iter.Seq[string], name string, unordered bool, e
 		return func() iter.Seq[string] {
 			seq := f.File(path)
 			return func(yield func(string) bool) { seq(func(it fmts.Item) bool { return yield(it.Key()) }) }
-		}, f.Name + ".File", false, f.ErrLast, cl
+		}, f.Name + ".File", false, f.ErrLast, true, cl
 	case "preorder", "postorder":
 		root := c.Rec.Newick.node()
 		ids := map[*newick.Node]string{}
@@ -73,7 +73,7 @@ func c18Seq(c *Case) (mk func() iter.Seq[string], name string, unordered bool, e
 					return yield(id)
 				})
 			}
-		}, "newick." + c.Iter, false, false, cleanup
+		}, "newick." + c.Iter, false, false, true, cleanup
 	case "foreach":
 		t := trie.New()
 		for _, op := range c.Trie.Ops {
@@ -91,13 +91,13 @@ func c18Seq(c *Case) (mk func() iter.Seq[string], name string, unordered bool, e
 			return func(yield func(string) bool) {
 				t.ForEach(func(b []byte) bool { return yield(string(b)) })
 			}
-		}, "trie.ForEach", true, false, func() { setKeyOrder(nil) }
+		}, "trie.ForEach", true, false, true, func() { setKeyOrder(nil) }
 	case "canon":
 		seq := append([]byte{}, c.Input...)
 		return func() iter.Seq[string] {
 			s := sequtil.CanonicalSubsequences(seq, c.K)
 			return func(yield func(string) bool) { s(func(b []byte) bool { return yield(string(b)) }) }
-		}, "sequtil.CanonicalSubsequences", false, false, cleanup
+		}, "sequtil.CanonicalSubsequences", false, false, true, cleanup
 	}
 	panic("c18Seq: " + c.Iter)
 }
@@ -107,6 +107,7 @@ type c18Info struct {
 	skipped  string
 	errItems int
 	name     string
+	reusable bool
 }
 
 func execC18(c *Case) *Verdict {
@@ -117,9 +118,15 @@ func execC18(c *Case) *Verdict {
 // execC18Info: Consumer nil means "every stop position x every style";
 // otherwise exactly the given one (replay / shrinking).
 func execC18Info(c *Case) (*Verdict, c18Info) {
-	mk, name, unordered, errLast, cleanup := c18Seq(c)
+	mk, name, unordered, errLast, reusable, cleanup := c18Seq(c)
 	defer cleanup()
-	info := c18Info{name: name}
+	info := c18Info{name: name, reusable: reusable}
+	if reusable {
+		// One iterator VALUE serves every run of the case (a File iterator reopens the
+		// file, a traversal restarts at the root): stopping it must leave nothing behind.
+		shared := mk()
+		mk = func() iter.Seq[string] { return shared }
+	}
 	full := sim.Consume(mk(), sim.ConsumerPlan{Style: sim.Direct, StopAt: -1}, 100000)
 	if full.Capped != "" {
 		info.skipped = "full_run_capped" // non-termination is C07's clause, not C18's
@@ -182,6 +189,34 @@ func execC18Info(c *Case) (*Verdict, c18Info) {
 			return &Verdict{Clause: "C18.prefix", Key: "C18.prefix" + key, Detail: where + ": items seen are not the leading items of the uninterrupted run",
 				Expected: full.Items, Observed: out.Items}
 		}
+		if reusable {
+			// the same iterator value, run again without stopping, must behave as before the stop
+			again := sim.Consume(mk(), sim.ConsumerPlan{Style: sim.Direct, StopAt: -1}, 100000)
+			same := again.Panic == "" && again.Capped == "" && len(again.Items) == len(full.Items)
+			if same && !unordered {
+				for i := range again.Items {
+					if again.Items[i] != full.Items[i] {
+						same = false
+					}
+				}
+			}
+			if same && unordered {
+				seen := map[string]int{}
+				for _, it := range again.Items {
+					seen[it]++
+					if seen[it] > fullSet[it] {
+						same = false
+					}
+				}
+			}
+			if !same {
+				d := where + ": the same iterator, run again to the end after that stop, no longer yields what it yielded before"
+				if again.Panic != "" {
+					d += " (panic: " + again.Panic + ")"
+				}
+				return &Verdict{Clause: "C18.rerun-after-stop", Key: "C18.rerun-after-stop" + key, Detail: d, Expected: full.Items, Observed: again.Items}
+			}
+		}
 		return nil
 	}
 	if c.Consumer != nil {
@@ -234,8 +269,12 @@ func RunC18(ctx *core.Ctx, r *core.Rng) {
 		}
 		plan := genPlan(r, core.Pick(r, planStyles), c.Input, f.Special)
 		if r.Chance(0.6) {
-			plan.Fault = &sim.Fault{Offset: r.Range(0, len(c.Input)), Forever: r.Bool(), WithData: r.Bool()}
-			plan.EOFWithData = false
+			plan.Fault = &sim.Fault{Offset: r.Range(0, len(c.Input)), Forever: r.Bool(), WithData: r.Bool(), Kind: sim.FaultKinds[r.Intn(len(sim.FaultKinds))]}
+			if r.Chance(0.35) { // transient: one error, then the rest of the data arrives
+				plan.Fault.Forever, plan.Fault.Resume = false, true
+			} else {
+				plan.EOFWithData = false
+			}
 		}
 		c.Plan = &plan
 	case x < 70: // File, plain / .gz / torn .gz / directory / missing
@@ -285,11 +324,14 @@ func RunC18(ctx *core.Ctx, r *core.Rng) {
 		c.Input = r.Bytes(r.Range(0, 40), "ACGTN")
 		c.K = r.Range(0, len(c.Input)+2)
 	}
-	ctx.EvS("C18 " + c.Iter + " " + c.Format)
-	ctx.EvB(c.Input)
+	ctx.EvS(describe(c))
 	v, info := execC18Info(c)
 	ctx.Stats.Inc("cases/" + info.name)
 	ctx.EvalN(int64(1 + 3*info.n))
+	if info.reusable {
+		ctx.EvalN(int64(3 * info.n))
+		ctx.Stats.Add("fault_fired/rerun_same_iterator_after_stop", int64(3*info.n))
+	}
 	if info.skipped != "" {
 		ctx.Stats.Inc("skipped_" + info.skipped + "/" + info.name)
 	} else {
@@ -309,6 +351,9 @@ func RunC18(ctx *core.Ctx, r *core.Rng) {
 		}
 		if c.Plan != nil && c.Plan.Fault != nil {
 			ctx.Stats.Inc("fault_fired/read_fault_environment")
+			if c.Plan.Fault.Resume {
+				ctx.Stats.Inc("fault_fired/read_fault_transient_data_resumes")
+			}
 		}
 		if c.File != nil {
 			ctx.Stats.Inc("fault_fired/file_" + c.File.Kind)
